@@ -50,6 +50,8 @@ class Ob:
     selfcheck: bool = True
     nonneg: tuple = ()
     kind: str = "equal"
+    ranges: dict = field(default_factory=dict)  # arg index -> (lo, hi): every int leaf of that arg lies in [lo, hi] (assumed; lets gathers split over feasible values only)
+    fold: bool = False  # finite-domain mode: keep if-then-else trees with constant leaves folded (small integer inputs selecting constants)
     replay: Callable | None = None  # replay(args) -> (differs, detail): concrete confirmation on the real code for custom obligations
 
 
@@ -126,6 +128,10 @@ def sym_inputs(ob: Ob, closed, interp: J.Interp):
             a[idx] = t
             if k != "k":
                 registry[nm] = (t, k, li, idx)
+            if k == "i" and flat_arg_index[li] in ob.ranges:
+                lo, hi = ob.ranges[flat_arg_index[li]]
+                interp.bounds[t.get_id()] = (lo, hi, t)
+                interp.side.append(z3.And(t >= lo, t <= hi))
         arrays.append(a)
     sym_args = jax.tree_util.tree_unflatten(treedef, arrays)
     return arrays, sym_args, registry
@@ -433,7 +439,7 @@ def decide(ob: Ob, pid: str, known: list) -> Result:
         modes = modes[:1]
     for mode in modes:
         res.mode = mode
-        interp = J.Interp(mul_mode=mode, while_bound=ob.while_bound)
+        interp = J.Interp(mul_mode=mode, while_bound=ob.while_bound, fold_ct=ob.fold)
         try:
             arrays, sym_args, registry = sym_inputs(ob, closed, interp)
             outs = interp.eval_closed(closed, arrays)
